@@ -93,12 +93,12 @@ fn stale(it: &mut Interp, info: &mut StepInfo, kind: u8, which: u16) {
                     if let Ok(x) = &r {
                         ld.push(*x);
                     }
-                    v.push(("open_dir", outcome(&r), if dirs_full { Some("TooManyOpenDirs") } else { None }));
+                    v.push(("open_dir", outcome(&r), None));
                     let r = a.open_dir(h, ".", s);
                     if let Ok(x) = &r {
                         ld.push(*x);
                     }
-                    v.push(("open_dir(.)", outcome(&r), if dirs_full { Some("TooManyOpenDirs") } else { None }));
+                    v.push(("open_dir(.)", outcome(&r), None));
                     v.push(("find_directory_entry", outcome(&a.find(h, "A", s)), None));
                     v.push(("iterate_dir", outcome(&a.iterate(h, s, &mut |_| {})), None));
                     let mut b = [0u8; 64];
@@ -108,10 +108,10 @@ fn stale(it: &mut Interp, info: &mut StepInfo, kind: u8, which: u16) {
                         if let Ok(x) = &r {
                             lf.push(*x);
                         }
-                        v.push(("open_file_in_dir", outcome(&r), if files_full { Some("TooManyOpenFiles") } else { None }));
+                        v.push(("open_file_in_dir", outcome(&r), None));
                     }
                     v.push(("delete_file_in_dir", outcome(&a.delete(h, "A", s)), None));
-                    v.push(("make_dir_in_dir", outcome(&a.mkdir(h, "STALEDIR", s)), if dirs_full { Some("TooManyOpenDirs") } else { None }));
+                    v.push(("make_dir_in_dir", outcome(&a.mkdir(h, "STALEDIR", s)), None));
                 }
                 v.push(("close_dir", outcome(&a.close_dir(h, Surf::Raw)), None));
                 v.push(("Directory::close", outcome(&a.close_dir(h, Surf::Raii)), None));
@@ -141,7 +141,7 @@ fn stale(it: &mut Interp, info: &mut StepInfo, kind: u8, which: u16) {
                     }
                     v.push(("open_root_dir", outcome(&r), if dirs_full { Some("TooManyOpenDirs") } else { None }));
                 }
-                v.push(("get_root_volume_label", outcome(&a.label(h)), if dirs_full { Some("TooManyOpenDirs") } else { None }));
+                v.push(("get_root_volume_label", outcome(&a.label(h)), None));
                 v.push(("close_volume", outcome(&a.close_volume(h, Surf::Raw)), None));
                 v.push(("Volume::close", outcome(&a.close_volume(h, Surf::Raii)), None));
                 (v, ld)
